@@ -1,2 +1,31 @@
 #!/bin/sh
+# Pre-build every harness configuration offline from /repo's working tree (checks rebuild
+# incrementally anyway; this only warms the target directories).
+set -u
+cd "$(dirname "$0")"
+export CARGO_NET_OFFLINE=true
+python3 - <<'PY'
+import sys, os
+sys.path.insert(0, os.getcwd())
+import importlib.util, subprocess
+spec = importlib.util.spec_from_loader("check", loader=None)
+src = open("check").read()
+mod = type(sys)("check")
+mod.__file__ = os.path.abspath("check")
+exec(compile(src.replace('if __name__ == "__main__":', 'if False:'), "check", "exec"), mod.__dict__)
+import concurrent.futures as cf
+cfgs = [c for c in mod.CFG if mod.CFG[c].get("runner") != "miri"]
+bad = 0
+with cf.ThreadPoolExecutor(max_workers=4) as ex:
+    for c, (ok, out) in zip(cfgs, ex.map(mod.build, cfgs)):
+        if not ok:
+            bad += 1
+            print("setup: build failed for", c, file=sys.stderr)
+            print(out[-2000:], file=sys.stderr)
+# Miri sysroot + harness under Miri (smoke)
+r = subprocess.run(["cargo", "+nightly", "miri", "setup"], cwd="harness", stdout=subprocess.PIPE, stderr=subprocess.STDOUT, text=True)
+if r.returncode != 0:
+    print("setup: cargo miri setup failed:", r.stdout[-1500:], file=sys.stderr)
+sys.exit(0)
+PY
 exit 0
